@@ -66,7 +66,7 @@ ASSUMPTIONS = [
     'when the constituents of a bead disagree on an attribute in keep/must/stash any of their values is accepted and an inconsistent-data warning is required (doc: workflow 3, third bullet)',
     'cases with more than %d placements (disconnected fragments fit on every combination of residues) are skipped' % 24,
     'reference atoms ([reference atoms] of .mapping files) are generated since finding F27 was fixed in /repo; VERIF_C01_REFERENCES=0 switches them off',
-    'modification mappings are not generated (part shipped hands the shipped ones over, but no input atom carries modifications)',
+    'the parts toy and shipped generate no modification mappings (shipped hands the shipped ones over, but no input atom carries modifications); the part modification-mappings does',
     'resid is never in attribute_keep (the CLI passes it in attribute_stash)',
 ]
 
@@ -1175,3 +1175,14 @@ PARTS = [
          floors={'nontrivial': 0.4, 'shared-atom': 0.05, 'unmapped-heavy': 0.1, 'clean': 0.3, 'nonmonotone-order': 0.1,
                  'disulfide': 0.05, 'nonadjacent-bond': 0.1}),
 ]
+
+from pbt import c01_modmap  # noqa: E402
+
+PARTS = PARTS + c01_modmap.PARTS
+RULE = RULE + ' ' + c01_modmap.RULE_TEXT
+_preload_main = preload
+
+
+def preload():   # noqa: F811
+    _preload_main()
+    c01_modmap.preload()
